@@ -66,6 +66,7 @@ type c19mCell struct {
 	IvVia    string            `json:"interval_given_through,omitempty"`
 	Interval int               `json:"interval_seconds,omitempty"`
 	IDState  string            `json:"instance_id_file_state,omitempty"`
+	Spelling c19Spelling       `json:"optout_spelling"`
 	Env      map[string]string `json:"env,omitempty"`
 	File     string            `json:"config_file,omitempty"`
 	Parsed   string            `json:"parsed_telemetry,omitempty"`
@@ -81,8 +82,12 @@ type c19mCell struct {
 }
 
 func (c *c19mCell) tag() string {
-	if c.Phase == "A" {
-		return fmt.Sprintf("A%d:%s|interval=%s(%s)", c.Idx, c.Route, c.IvClass, c.IvVia)
+	if c.Phase == "A" || c.Phase == "S" {
+		sp := ""
+		if c.Route != "programmatic" {
+			sp = "|enabled=" + c.Spelling.Text
+		}
+		return fmt.Sprintf("%s%d:%s%s|interval=%s(%s)", c.Phase, c.Idx, c.Route, sp, c.IvClass, c.IvVia)
 	}
 	return fmt.Sprintf("B%d:%s|instance-id-file=%s", c.Idx, c.Route, c.IDState)
 }
@@ -152,6 +157,10 @@ func c19mConfig(c *c19mCell) (*Config, error) {
 	}
 	var cfg *Config
 	var err error
+	if c.Spelling.Text == "" {
+		c.Spelling = c19Documented
+	}
+	off := c.Spelling.Text
 	switch c.Route {
 	case "programmatic":
 		cfg = NewDefaultConfig()
@@ -165,16 +174,16 @@ func c19mConfig(c *c19mCell) (*Config, error) {
 		if c.IvClass != "unset" {
 			c.IvVia = "file"
 		}
-		cfg, err = fromFile(nested("false"))
+		cfg, err = fromFile(nested(off))
 	case "config-file-dotted":
-		tel := "telemetry.enabled: false\n"
+		tel := "telemetry.enabled: " + off + "\n"
 		if c.IvClass != "unset" {
 			c.IvVia = "file"
 			tel += fmt.Sprintf("telemetry.interval.seconds: %d\n", c.Interval)
 		}
 		cfg, err = fromFile(tel)
 	case "env-var:with-config-file":
-		setenv(c19EnvVar, "false")
+		setenv(c19EnvVar, off)
 		if c.IvClass != "unset" {
 			if (c.Idx+c.Round)%2 == 0 {
 				c.IvVia = "file"
@@ -186,7 +195,7 @@ func c19mConfig(c *c19mCell) (*Config, error) {
 		cfg, err = fromFile(nested(""))
 	case "env-var:no-config-file":
 		// what main.go does without --config: NewConfig("") and then the flags
-		setenv(c19EnvVar, "false")
+		setenv(c19EnvVar, off)
 		if c.IvClass != "unset" && (c.Idx+c.Round)%2 == 0 {
 			c.IvVia = "env"
 			setenv(c19EnvInterval, fmt.Sprint(c.Interval))
@@ -263,7 +272,7 @@ func c19mLife(c *c19mCell, cfg *Config, waitReport func()) string {
 		return fmt.Sprintf("server did not start: %v", err)
 	}
 	c.listen = fmt.Sprintf("127.0.0.1:%d", srv.port)
-	if c.Phase == "B" {
+	if c.Phase != "A" {
 		c.collector = "off"
 		if srv.telemetry != nil {
 			c.collector = "on"
@@ -306,8 +315,9 @@ func c19mLife(c *c19mCell, cfg *Config, waitReport func()) string {
 func TestVerifC19Matrix(t *testing.T) {
 	rep := kit.NewReport("C19", "matrix")
 	defer rep.Write()
-	rep.SetRule("http.DefaultTransport is a recorder; real single-node servers, several at a time.  Phase A: {programmatic, config file nested, config file dotted, LIFTBRIDGE_TELEMETRY_ENABLED=false with a config file, the same without} x reporting interval {unset, positive, 0, negative} (seeded value; given in the file, through LIFTBRIDGE_TELEMETRY_INTERVAL_SECONDS or programmatically) — each cell: start, leader, stream + publish with needles, Stop(); oracle when the last Stop() of the phase has returned: ZERO requests recorded (a request is attributed to its cell through the .instance_id file a collector left in the cell's data directory).  Phase B (after phase A has been judged): telemetry ON (defaults / config file, interval 1 s) x state of <data dir>/.instance_id {healthy (control), directory, non-empty directory, symlink into a missing directory, symlink loop, empty file, file of an earlier run, file with trailing newline}, operator-chosen server id / namespace / data-directory name / NATS credentials / stream, subject, message as needles; oracle: either no report, or every report passes the judge (instance_id is a version-4 UUID, whitelisted keys, documented endpoint, no needle of ANY concurrently running cell in URL, headers or body).  non-trivial = the cell's server came up, was used and stopped; distinct = phase x route x interval class x how given / instance-id file state x round")
+	rep.SetRule("http.DefaultTransport is a recorder; real single-node servers, several at a time.  Phase S (spelling of the opt-out): every spelling of 'off' (false literals of strconv.ParseBool and of YAML 1.1 booleans, bare and — in a file — quoted, plus the word `disabled`; 21 in a file, 15 in the environment) x every route that takes text (config file nested / dotted, LIFTBRIDGE_TELEMETRY_ENABLED with / without a config file) is given to the real NewConfig; every combination that does not come out as disabled is run as a real server lifetime (at most 2 per route x class) and requests recorded there are the violation.  Phase A: {programmatic, config file nested, config file dotted, LIFTBRIDGE_TELEMETRY_ENABLED=<off> with a config file, the same without} x reporting interval {unset, positive, 0, negative} (seeded value; given in the file, through LIFTBRIDGE_TELEMETRY_INTERVAL_SECONDS or programmatically); the cell with the interval unset spells the opt-out `false` as documented, the other cells take the next spelling of a seeded rotation in which the classes alternate — each cell: start, leader, stream + publish with needles, Stop(); oracle when the last Stop() of the phase has returned: ZERO requests recorded (a request is attributed to its cell through the .instance_id file a collector left in the cell's data directory).  Phase B (after phase A has been judged): telemetry ON (defaults / config file, interval 1 s) x state of <data dir>/.instance_id {healthy (control), directory, non-empty directory, symlink into a missing directory, symlink loop, empty file, file of an earlier run, file with trailing newline}, operator-chosen server id / namespace / data-directory name / NATS credentials / stream, subject, message as needles; oracle: either no report, or every report passes the judge (instance_id is a version-4 UUID, whitelisted keys, documented endpoint, no needle of ANY concurrently running cell in URL, headers or body).  non-trivial = the cell's server came up, was used and stopped; distinct = phase x route x spelling (S) / interval class x how given x spelling class (A) / instance-id file state (B) x round")
 	rep.Assume("'disabled' leaves no room for the interval: whatever the reporting interval next to an opt-out says (also a value that makes no sense for a ticker), no request may be made.  LIFTBRIDGE_TELEMETRY_INTERVAL_SECONDS is the variable config.go binds for the interval; it is used as an input only")
+	rep.Assume("spelling: the documentation shows only `false`.  The other spellings are the closed set 'false literal of Go's ParseBool or of YAML 1.1 booleans, bare or quoted' plus the word `disabled`; every one of them (indeed every value that is not a true literal) switches telemetry off on the tree this check was built on, through every route.  A tree that REFUSES such a value with a configuration error is not judged (counted); one that starts and reports although the operator wrote an 'off' value is")
 	rep.Assume("phase B demands nothing about WHETHER a server with an unusable instance-id file reports (staying off is what the unchanged code does); it only demands that whatever is sent identifies the installation by a random UUID and carries no operator-chosen name.  Telemetry ON is never combined with a non-positive interval (time.NewTicker would panic; not this property's subject)")
 	rep.Assume("the process runs as uid 0 in the sandbox, so a read-only data directory cannot be produced with permissions; the unusable states used are independent of the uid")
 
@@ -372,30 +382,10 @@ func TestVerifC19Matrix(t *testing.T) {
 		})
 	}
 
-	idx := 0
-	for round := 0; round < rounds; round++ {
-		// ------------------------------------------------ phase A
-		var cellsA []*c19mCell
-		for _, route := range c19mOffRoutes {
-			for _, cls := range c19mIvClasses {
-				rng := root.Fork(uint64(idx))
-				c := &c19mCell{Idx: idx, Round: round, Phase: "A", Route: route, IvClass: cls, IvVia: "none", Interval: c19mInterval(rng, cls), Needles: c19NewNeedles(rng), rng: rng.Fork(1)}
-				cellsA = append(cellsA, c)
-				idx++
-			}
-		}
-		// seeded order so that the cells sharing a batch differ from round to round
-		prng := root.Fork(uint64(7000 + round))
-		for i := len(cellsA) - 1; i > 0; i-- {
-			j := prng.Intn(i + 1)
-			cellsA[i], cellsA[j] = cellsA[j], cellsA[i]
-		}
-		rec.Take()
-		rec.SetMode(round % 3)
-		runPhase(cellsA, nil)
-		// every server of the phase has been stopped (Stop joins a collector): the record is final
-		reqs := rec.Take()
-		rep.Count("requests_recorded_phaseA", int64(len(reqs)))
+	// judgeOff: requests recorded while only servers with telemetry switched
+	// off were running; each is attributed to its cell through the
+	// .instance_id file a collector left in the cell's data directory.
+	judgeOff := func(cellsA []*c19mCell, reqs []kit.C19Request, round int) {
 		if len(reqs) > 0 {
 			byID := map[string]*c19mCell{}
 			for _, c := range cellsA {
@@ -418,11 +408,14 @@ func TestVerifC19Matrix(t *testing.T) {
 			}
 			for c, rs := range blamed {
 				fp := "C19:telemetry-sent-while-disabled:" + c.Route
+				if c.Phase == "S" || c19SpellingIneffective(c.Route, c.Spelling) {
+					fp += c19SpellingSuffix(c.Spelling)
+				}
 				if c.IvClass == "zero" || c.IvClass == "negative" {
 					fp += ":interval-" + c.IvClass
 				}
-				rep.Violation(fp, fmt.Sprintf("telemetry switched off through route %q with reporting interval %s (%d s, given through %s), yet %d request(s) were made during the server's lifetime (first: %s %s); parsed: %s",
-					c.Route, c.IvClass, c.Interval, c.IvVia, len(rs), rs[0].Method, rs[0].URL, c.Parsed),
+				rep.Violation(fp, fmt.Sprintf("telemetry switched off through route %q (opt-out written as %s) with reporting interval %s (%d s, given through %s), yet %d request(s) were made during the server's lifetime (first: %s %s); parsed: %s",
+					c.Route, c19mWritten(c), c.IvClass, c.Interval, c.IvVia, len(rs), rs[0].Method, rs[0].URL, c.Parsed),
 					map[string]any{"seed": kit.Seed(), "round": round, "cell": c, "requests": rs})
 			}
 			if len(orphan) > 0 {
@@ -434,19 +427,127 @@ func TestVerifC19Matrix(t *testing.T) {
 					map[string]any{"seed": kit.Seed(), "round": round, "cells": tags, "requests": orphan})
 			}
 		}
+	}
+
+	idx := 0
+	for round := 0; round < rounds; round++ {
+		// ------------------------------------------------ phase S (once)
+		// every spelling of the opt-out x every route that takes text: the
+		// configuration is built by the real NewConfig; every combination the
+		// tree does NOT turn into "disabled" is then run as a real server
+		// lifetime, and only requests recorded there are a violation
+		if round == 0 {
+			var cellsS []*c19mCell
+			perClass := map[string]int{}
+			sweepDir := filepath.Join(base, "sweep")
+			os.MkdirAll(sweepDir, 0755)
+			for _, route := range c19mOffRoutes {
+				if route == "programmatic" {
+					continue
+				}
+				list := c19FileSpellings
+				if strings.HasPrefix(route, "env-var") {
+					list = c19EnvSpellings
+				}
+				for _, sp := range list {
+					probe := &c19mCell{Phase: "S", Route: route, IvClass: "unset", IvVia: "none", Spelling: sp, Needles: c19NewNeedles(root.Fork(uint64(9000))), dir: sweepDir, dataDir: filepath.Join(sweepDir, "data"), natsURL: "nats://127.0.0.1:1"}
+					cfg, err := c19mConfig(probe)
+					rep.Eval()
+					rep.Count("spelling_sweep_configurations_built", 1)
+					switch {
+					case err != nil:
+						// a tree may refuse a spelling loudly; that is not "sent while disabled"
+						rep.Count("spelling_sweep_refused_with_error/"+sp.Class, 1)
+					case !cfg.Telemetry.Enabled:
+						rep.Count("spelling_sweep_parsed_disabled/"+sp.Class, 1)
+						rep.Nontrivial(fmt.Sprintf("S|%s|%s|parsed-disabled", route, sp.Text))
+					default:
+						rep.Count("spelling_sweep_parsed_ENABLED/"+sp.Class, 1)
+						k := route + "|" + sp.Class
+						if perClass[k] < 2 && len(cellsS) < 16 {
+							perClass[k]++
+							rng := root.Fork(uint64(8000 + len(cellsS)))
+							cellsS = append(cellsS, &c19mCell{Idx: len(cellsS), Round: round, Phase: "S", Route: route, IvClass: "unset", IvVia: "none", Spelling: sp, Needles: c19NewNeedles(rng), rng: rng.Fork(1)})
+						}
+					}
+				}
+			}
+			os.RemoveAll(sweepDir)
+			if len(cellsS) > 0 {
+				rec.Take()
+				rec.SetMode(0)
+				runPhase(cellsS, nil)
+				reqs := rec.Take()
+				rep.Count("requests_recorded_phaseS", int64(len(reqs)))
+				judgeOff(cellsS, reqs, round)
+				for _, c := range cellsS {
+					if c.completed {
+						rep.Nontrivial(fmt.Sprintf("S|%s|%s|lifetime", c.Route, c.Spelling.Text))
+					}
+					os.RemoveAll(c.dir)
+				}
+				// keep the verdict even if a later cell takes the process down
+				rep.Write()
+			}
+		}
+
+		// ------------------------------------------------ phase A
+		// spellings: the cell with the interval left unset keeps the documented
+		// `false`; the other three cells of a route take the next entries of a
+		// seeded rotation over the remaining spellings (classes alternate)
+		srng := root.Fork(uint64(6000 + round))
+		fileRot := c19SpellingRotation(srng, c19FileSpellings)
+		envRot := c19SpellingRotation(srng, c19EnvSpellings)
+		nf, ne := round*6, round*6
+		var cellsA []*c19mCell
+		for _, route := range c19mOffRoutes {
+			for _, cls := range c19mIvClasses {
+				rng := root.Fork(uint64(idx))
+				c := &c19mCell{Idx: idx, Round: round, Phase: "A", Route: route, IvClass: cls, IvVia: "none", Interval: c19mInterval(rng, cls), Needles: c19NewNeedles(rng), rng: rng.Fork(1)}
+				c.Spelling = c19Documented
+				if cls != "unset" {
+					switch {
+					case strings.HasPrefix(route, "config-file"):
+						c.Spelling = fileRot[nf%len(fileRot)]
+						nf++
+					case strings.HasPrefix(route, "env-var"):
+						c.Spelling = envRot[ne%len(envRot)]
+						ne++
+					}
+				}
+				cellsA = append(cellsA, c)
+				idx++
+			}
+		}
+		// seeded order so that the cells sharing a batch differ from round to round
+		prng := root.Fork(uint64(7000 + round))
+		for i := len(cellsA) - 1; i > 0; i-- {
+			j := prng.Intn(i + 1)
+			cellsA[i], cellsA[j] = cellsA[j], cellsA[i]
+		}
+		rec.Take()
+		rec.SetMode(round % 3)
+		runPhase(cellsA, nil)
+		// every server of the phase has been stopped (Stop joins a collector): the record is final
+		reqs := rec.Take()
+		rep.Count("requests_recorded_phaseA", int64(len(reqs)))
+		judgeOff(cellsA, reqs, round)
 		for _, c := range cellsA {
 			if c.completed {
 				if len(reqs) == 0 {
 					rep.Count("disabled_lifetimes_with_zero_requests", 1)
 					rep.Count("silent/interval-"+c.IvClass+"/"+c.IvVia, 1)
 				}
-				rep.Nontrivial(fmt.Sprintf("A|%s|%s|%s|round%d", c.Route, c.IvClass, c.IvVia, round))
+				rep.Nontrivial(fmt.Sprintf("A|%s|%s|%s|%s|round%d", c.Route, c.IvClass, c.IvVia, c.Spelling.Class, round))
+				if c.Route != "programmatic" {
+					rep.Count("lifetimes_spelling_"+c.Spelling.Class, 1)
+				}
 			}
 			os.RemoveAll(c.dir)
 		}
 		if round == 0 && len(cellsA) > 0 {
 			for _, c := range cellsA[:3] {
-				rep.Sample(map[string]any{"cell": c.tag(), "parsed": c.Parsed, "env": c.Env, "config_file_telemetry_part": c19mTelemetryPart(c.File), "requests_in_phase": len(reqs)})
+				rep.Sample(map[string]any{"cell": c.tag(), "optout_written_as": c19mWritten(c), "parsed": c.Parsed, "env": c.Env, "config_file_telemetry_part": c19mTelemetryPart(c.File), "requests_in_phase": len(reqs)})
 			}
 		}
 
@@ -516,6 +617,19 @@ func TestVerifC19Matrix(t *testing.T) {
 			rep.Sample(s)
 		}
 	}
+}
+
+// c19mWritten: the opt-out as the operator wrote it.
+func c19mWritten(c *c19mCell) string {
+	switch {
+	case c.Route == "programmatic":
+		return "Config.Telemetry.Enabled = false"
+	case strings.HasPrefix(c.Route, "env-var"):
+		return c19EnvVar + "=" + c.Spelling.Text
+	case c.Route == "config-file-dotted":
+		return "`telemetry.enabled: " + c.Spelling.Text + "`"
+	}
+	return "`telemetry: {enabled: " + c.Spelling.Text + "}`"
 }
 
 // c19mTelemetryPart: the lines of a generated config file that concern telemetry.
